@@ -1,4 +1,4 @@
-use super::fixed::{FixedBitfield, FIXED_BITFIELD_BITS_LENGTH, FIXED_BITFIELD_LENGTH};
+use super::fixed::{FixedBitfield, FIXED_BITFIELD_BITS_LENGTH, FIXED_BITFIELD_BYTES_LENGTH};
 use crate::{
     common::{BitfieldUpdate, StoreInfo, StoreInfoInstruction, StoreInfoType},
     Store,
@@ -41,7 +41,8 @@ impl DynamicBitfield {
                     let mut pages: intmap::IntMap<RefCell<FixedBitfield>> = intmap::IntMap::new();
                     let mut data_index = 0;
                     while data_index < data.len() {
-                        let parent_index: u64 = (data_index / FIXED_BITFIELD_LENGTH) as u64;
+                        // Each page takes FIXED_BITFIELD_BYTES_LENGTH bytes of the store
+                        let parent_index: u64 = (data_index / FIXED_BITFIELD_BYTES_LENGTH) as u64;
                         pages.insert(
                             parent_index,
                             RefCell::new(FixedBitfield::from_data(data_index, &data)),
@@ -49,7 +50,7 @@ impl DynamicBitfield {
                         if parent_index > biggest_page_index {
                             biggest_page_index = parent_index;
                         }
-                        data_index += FIXED_BITFIELD_LENGTH;
+                        data_index += FIXED_BITFIELD_BYTES_LENGTH;
                     }
                     Either::Right(Self {
                         pages,
